@@ -43,9 +43,13 @@ def load_variants(pid):
                 meta = json.load(fh)
             if pid == meta.get("property") or pid in meta.get("detected_by",
                                                              []):
-                out.append({"name": "seed:" + d, "kind": "mutant",
+                out.append({"name": "seed:" + d,
+                            "kind": meta.get("kind", "mutant"),
                             "patch": os.path.join(sd, d, "patch.diff"),
-                            "expect": []})
+                            "expect": [],
+                            "allow_exit2": pid in meta.get("refused_by", []),
+                            "known_limitation": meta.get(
+                                "known_limitation")})
     return out
 
 
@@ -133,7 +137,7 @@ def selftest(pid, root, jobs=None):
         res = list(ex.map(run_variant, [(pid, root, v) for v in vs]))
     byname = {v["name"]: v for v in vs}
     rep = {"mutants": 0, "mutants_fired": 0, "twins": 0, "twins_silent": 0,
-           "inapplicable": [], "misses": [], "details": []}
+           "inapplicable": [], "misses": [], "limits": [], "details": []}
     for (name, kind, verdict, rules, msg) in res:
         v = byname[name]
         if verdict == "inapplicable":
@@ -155,6 +159,9 @@ def selftest(pid, root, jobs=None):
             rep["twins"] += 1
             if verdict == "silent":
                 rep["twins_silent"] += 1
+            elif verdict == "analysis-error" and v.get("known_limitation"):
+                rep.setdefault("limits", []).append(
+                    "twin %s: exit 2 (%s)" % (name, v["known_limitation"]))
             else:
                 rep["misses"].append("twin %s: %s %s %s" % (
                     name, verdict, rules, msg[-300:]))
@@ -183,5 +190,7 @@ if __name__ == "__main__":
             print("   INAPPLICABLE", m)
         for m in rep["misses"]:
             print("   MISS", m)
+        for m in rep.get("limits", []):
+            print("   LIMIT", m)
         bad += len(rep["misses"]) + len(rep["inapplicable"])
     sys.exit(1 if bad else 0)
